@@ -627,9 +627,17 @@ func (env *Env) quant(x *SExpr) *SVal {
 		bv := c.BoundVar(b.Name, sortOf(t))
 		bound = append(bound, bv)
 		sub.vars[b.Name] = &SVal{T: bv, Typ: t}
-		// quantified pointers/slices range over well-formed allocated values
-		if wf := env.e.wellFormed(bv, t, env.st.Alloc); !wf.IsTrue() {
-			guards = append(guards, wf)
+		// quantified pointers/maps range over non-nil, allocated objects of that type; slices over well-formed values
+		switch u := t.Underlying().(type) {
+		case *types.Pointer:
+			guards = append(guards, env.e.typedObj(env.st, env.e.ptrObj(bv), u.Elem()))
+		case *types.Map:
+			guards = append(guards, c.And(c.Ne(bv, env.e.bv64(0)), c.Cmp("bvule", bv, env.st.Alloc),
+				c.Eq(c.Select(env.e.objTypeHeap(env.st), bv), env.e.typeID(u))))
+		default:
+			if wf := env.e.wellFormed(bv, t, env.st); !wf.IsTrue() {
+				guards = append(guards, wf)
+			}
 		}
 	}
 	body := sub.val(sub.ev(x.Args[0]))
